@@ -83,8 +83,8 @@ PROPS["C15"] = {"units": [], "kani": [], "replay": ["bounded"], "engine": "repla
     "level_text": "BOUNDED ONLY: Object::unordered_eq is two nested all/any closure chains over custom iterators (no vstd spec, closures calling back into trait methods), outside Verus; Kani cannot take hashbrown-backed objects at useful sizes. All pairs of objects with <= 3 (thorough: 4) entries over 2 keys and 2 values, one nesting level, compared with the multiset definition.",
     "level_note": "bounded exploration, not a proof; oracle = native multiset matching in replay/src/checks_object.rs",
     "technique": "bounded exhaustive comparison with a reference definition (stand-in; no contract within reach)", "design_ref": "DESIGN.md §6.7"}
-PROPS["C09"] = {"units": ["object"], "kani": [], "replay": ["bounded"], "title": "Canonicalization conforms to RFC 8785", "level": "proof",
-    "level_text": "Proved: Object::sort re-establishes the index invariant and orders entries by the comparator it is given (permutation preserved). The UTF-16 member order and the ES6 number rendering are decided only by the bounded stand-in (keys separating UTF-16 from code-point order, the RFC 8785 number table).",
+PROPS["C09"] = {"units": ["object", "print"], "kani": [], "replay": ["bounded"], "title": "Canonicalization conforms to RFC 8785", "level": "proof",
+    "level_text": "Proved: Object::sort re-establishes the index invariant and orders entries by the comparator it is given (permutation preserved); string_literal emits exactly the RFC 8785 minimal escaping. The UTF-16 member order and the ES6 number rendering are decided only by the bounded stand-in (keys separating UTF-16 from code-point order, the RFC 8785 number table).",
     "level_note": "number clause = dependency behaviour (json-number/ryu-js), assumed; encode_utf16 comparator assumed; the recursive canonicalize_with is not under contract" + _BOUNDED_NOTE,
     "design_ref": "DESIGN.md §6.4"}
 PROPS["C10"] = {"units": ["object"], "kani": [], "replay": ["bounded"], "title": "Canonical form is idempotent, blind to member order", "level": "proof",
